@@ -103,6 +103,18 @@ func TestC07Guard(t *testing.T) {
 		{K: "spell", M: mAuthor, A: 2, B: 4, V: 2},
 		{K: "spell", M: mParcel, A: 2, B: 5, V: 5},
 		{K: "spell", M: mGadget, A: 7, B: 6, V: 1},
+		{K: "tree", M: mBand, A: 3, B: 4, V: 0},
+		{K: "tree", M: mTeam, A: 3, B: 4, V: 1},
+		{K: "tree", M: mShop, A: 3, B: 4, V: 2},
+		{K: "preload", M: mBand, R: "Songs"},
+		{K: "preload", M: mShop, R: "Brands"},
+		{K: "aappend", M: mTeam, A: 1, B: 5, V: 1, R: "Skills"},
+		{K: "afind", M: mTeam, A: 1, R: "Skills"},
+		{K: "acount", M: mBand, A: 3, R: "Songs"},
+		{K: "areplace", M: mShop, A: 1, B: 6, V: 1, R: "Brands"},
+		{K: "create", M: mSong, A: 7, V: 1},
+		{K: "create", M: mWidget, A: 5, V: 7},
+		{K: "first", M: mWidget, A: 5},
 		{K: "take", M: mTag, A: 1},
 		{K: "last", M: mGadget},
 		{K: "findbatches", M: mGadget},
@@ -202,6 +214,15 @@ func TestC07Guard(t *testing.T) {
 		}
 		if r := first.results[0][depotPreload]; !strings.Contains(r, "parcels=[Parcel{") {
 			t.Errorf("harness: Preload(Parcels) carries no parcels: %q", r)
+		}
+		for i, o := range script {
+			r := first.results[0][i]
+			if o.K == "preload" && o.M == mBand && !strings.Contains(r, "songs=[Song{") {
+				t.Errorf("harness: Preload(Songs) carries no songs: %q", r)
+			}
+			if o.K == "first" && o.M == mWidget && o.A == 5 && !strings.Contains(r, `secret="s105-7"`) {
+				t.Errorf("harness: the Cipher field does not round-trip: %q", r)
+			}
 		}
 		if len(first.rows) < 10 {
 			t.Errorf("harness: final dump holds only %d rows", len(first.rows))
